@@ -1,2 +1,149 @@
-import AlgoVerif.Common
-/-! # C08 — property theorems (none yet) -/
+import AlgoVerif.Proofs.C08Cycles
+/-!
+# C08 — CFG transformations preserve the generated language (statements; proofs in `Proofs/C08*.lean`)
+
+Reading of the property.  `AlgoVerif.C08.elimEmpty`, `elimSingle`, `elimUnreachable`, `elimCycles`,
+`elimLeftRec`, `leftFactor`, `cnf` (`Model/C08.lean`) are the Model of `EliminateEmptyProductions`,
+`EliminateSingleProductions`, `EliminateUnreachableProductions`, `EliminateCycles`,
+`EliminateLeftRecursion`, `LeftFactor`, `ChomskyNormalForm` of `/repo/grammar/cfg.go` (as patched: results
+are pruned by `removeNonTerminalsWithoutProductions`; `LeftFactor` repeats until nothing changes).  Each
+returns `Outcome G`; `Language g w` (`Model/GrammarCore.lean`) says the terminal string `w` is derivable from
+the start symbol.  The property is, for every transformation `T`,
+
+    ∀ g g', Valid g → Hygienic g → T g = .ok g' → ∀ w, Language g' w ↔ Language g w          (full statement)
+
+together with `T g = .ok _` for valid hygienic `g` (no panic, no divergence) except where
+`AddNewNonTerminal` runs out of suffixes.  There is no bound on grammar size, body length or sentence length
+in any statement below.
+
+What is proved here, each for every valid grammar and every sentence (no bounds anywhere):
+
+* `EliminateEmptyProductions` (`C08_emptyfree`), `EliminateSingleProductions` (`C08_singlefree`),
+  `EliminateUnreachableProductions` (`C08_unreachable`), `EliminateCycles` (`C08_cycles`) and START
+  (`C08_cnfstart`) return a grammar with exactly the same language — both inclusions;
+* so does `removeNonTerminalsWithoutProductions` (`C08_prune`), the step the ε-, unit- and left-recursion
+  elimination end with.
+
+Proof shape: a general library about derivations (`Proofs/C08Lang.lean`: monotonicity, head-first induction
+with step counts, the splitting lemma, the simulation lemma for renamings of non-terminals) plus, per
+transformation, invariants of the Model's folds and fixpoint loops (`Proofs/C08Model.lean`, `C08Single*.lean`,
+`C08Empty*.lean`): a fixpoint of a pass is closed under the rule the pass applies (DESIGN.md Appendix B), and
+everything a pass adds is justified.
+
+What is not proved (kept as full statements below; checked only by the differential harness against the
+exact bounded-language oracle, sentences up to length 6): TERM, BIN, `ChomskyNormalForm`,
+`EliminateLeftRecursion`, `LeftFactor`; and that no transformation panics or diverges on a valid hygienic
+grammar (the theorems are conditional on the Model returning `.ok`).
+-/
+open AlgoVerif AlgoVerif.Gram AlgoVerif.C08 AlgoVerif.C08.Spec
+
+/-- `EliminateUnreachableProductions` preserves the language — every grammar (valid or not), every sentence. -/
+theorem C08_unreachable (g g' : G) (h : elimUnreachable g = .ok g') : SameLanguage g g' :=
+  fun w => elimUnreachable_language h w
+
+/-- non-vacuity: `B` is unreachable; it, its production and the terminal `b` go away -/
+example : (elimUnreachable
+      { terms := ["a", "b"]
+        nonterms := ["S", "A", "B"]
+        prods := [{ head := "S", body := [.term "a", .nonterm "A"] }, { head := "A", body := [.term "a"] },
+                  { head := "B", body := [.term "b", .nonterm "S"] }]
+        start := "S" }).map showGrammar = .ok "start=S T={a} N={A,S} P={A→a; S→a A}" := by
+  decide
+
+/-- `removeNonTerminalsWithoutProductions` (run at the end of ε-, unit- and left-recursion elimination)
+preserves the language: a production that mentions a non-terminal without productions is used in no
+derivation of a sentence. -/
+theorem C08_prune (g : G) : SameLanguage g (prune g) :=
+  fun w => prune_language g w
+
+/-- non-vacuity: `A` has no production; `S → a A` goes, then nothing else -/
+example : showGrammar (prune
+      { terms := ["a"]
+        nonterms := ["S", "A"]
+        prods := [{ head := "S", body := [.term "a", .nonterm "A"] }, { head := "S", body := [.term "a"] }]
+        start := "S" }) = "start=S T={a} N={S} P={S→a}" := by
+  decide
+
+/-- START (`eliminateStartSymbolFromRight`) preserves the language of every valid grammar. -/
+theorem C08_cnfstart (g g' : G) (hv : Valid g) (h : cnfStart g = .ok g') : SameLanguage g g' :=
+  fun w => cnfStart_language h hv.wellFormed w
+
+example : (cnfStart
+      { terms := ["a"]
+        nonterms := ["S"]
+        prods := [{ head := "S", body := [.term "a", .nonterm "S"] }, { head := "S", body := [] }]
+        start := "S" }).map showGrammar = .ok "start=S′ T={a} N={S,S′} P={S′→S; S→a S; S→ε}" := by
+  decide
+
+/-- `EliminateSingleProductions` preserves the language of every valid grammar: closure of the unit
+productions, re-attachment of the non-unit bodies, pruning. -/
+theorem C08_singlefree (g g' : G) (hv : Valid g) (h : elimSingle g = .ok g') : SameLanguage g g' :=
+  fun w => elimSingle_language h hv.wellFormed w
+
+/-- non-vacuity: unit cycle `A ↔ B`, `S → A`; the result has no unit production -/
+example : (elimSingle
+      { terms := ["a", "b"]
+        nonterms := ["S", "A", "B"]
+        prods := [{ head := "S", body := [.nonterm "A"] }, { head := "S", body := [.term "a"] },
+                  { head := "A", body := [.nonterm "B"] }, { head := "B", body := [.nonterm "A"] },
+                  { head := "B", body := [.nonterm "S", .term "b"] }]
+        start := "S" }).map showGrammar = .ok "start=S T={a,b} N={A,B,S} P={A→S b; B→S b; S→S b; S→a}" := by
+  decide
+
+/-- `EliminateEmptyProductions` preserves the language of every valid grammar, whatever the length of the
+bodies and the positions of the nullable symbols in them (the statement D12 violated): every way of dropping
+nullable occurrences is generated (`mem_expandBody`), each is derivable (`expandBody_spec`), `nullable` is
+exactly the set of non-terminals deriving ε, and `S′ → S | ε` is added iff `S ⇒* ε`. -/
+theorem C08_emptyfree (g g' : G) (hv : Valid g) (h : elimEmpty g = .ok g') : SameLanguage g g' :=
+  fun w => elimEmpty_language h hv.wellFormed w
+
+/-- non-vacuity: the D12 grammar (`S → a N b M c`, `N`, `M` nullable): all four variants, none duplicated -/
+example : (elimEmpty
+      { terms := ["a", "b", "c"]
+        nonterms := ["S", "N", "M"]
+        prods := [{ head := "S", body := [.term "a", .nonterm "N", .term "b", .nonterm "M", .term "c"] },
+                  { head := "N", body := [.term "a"] }, { head := "N", body := [] },
+                  { head := "M", body := [.term "b"] }, { head := "M", body := [] }]
+        start := "S" }).map showGrammar
+    = .ok "start=S T={a,b,c} N={M,N,S} P={M→b; N→a; S→a N b M c; S→a N b c; S→a b M c; S→a b c}" := by
+  decide
+
+/-- non-vacuity (D13): the ε-only non-terminal `A` disappears together with `S → a A` -/
+example : (elimEmpty
+      { terms := ["a"]
+        nonterms := ["S", "A"]
+        prods := [{ head := "S", body := [.term "a", .nonterm "A"] }, { head := "A", body := [] }]
+        start := "S" }).map showGrammar = .ok "start=S T={a} N={S} P={S→a}" := by
+  decide
+
+/-- `EliminateCycles` (= ε-elimination, unit-elimination, unreachable-elimination) preserves the language of
+every valid grammar. -/
+theorem C08_cycles (g g' : G) (hv : Valid g) (h : elimCycles g = .ok g') : SameLanguage g g' :=
+  fun w => elimCycles_language h hv.wellFormed w
+
+/-- non-vacuity: nullable symbols at both ends and in the middle, a unit cycle `A ↔ B` -/
+example : (elimCycles
+      { terms := ["a", "b"]
+        nonterms := ["S", "A", "B"]
+        prods := [{ head := "S", body := [.nonterm "A", .term "a", .nonterm "B", .nonterm "A"] },
+                  { head := "A", body := [.nonterm "B"] }, { head := "A", body := [] },
+                  { head := "B", body := [.nonterm "A"] }, { head := "B", body := [.term "b"] }]
+        start := "S" }).map showGrammar
+    = .ok "start=S T={a,b} N={A,B,S} P={A→b; B→b; S→A a; S→A a A; S→A a B; S→A a B A; S→a; S→a A; S→a B; S→a B A}" := by
+  decide
+
+/-
+Full statements not proved (correspondence + bounded-language oracle only):
+
+    theorem C08_cnfterm    (g g' : G) (hv : Valid g) (hh : Hygienic g) (h : cnfTerm g = .ok g') : SameLanguage g g'
+    theorem C08_cnfbin     (g g' : G) (hv : Valid g) (hh : Hygienic g) (h : cnfBin g = .ok g') : SameLanguage g g'
+      -- "fold a fresh non-terminal": each fresh `aₙ → a` / `Aᵢ → Xᵢ₊₁ Aᵢ₊₁` has exactly one production, so
+      -- unfolding it everywhere gives back the original production; Hygienic makes the names fresh
+    theorem C08_cnf        (g g' : G) (hv : Valid g) (hh : Hygienic g) (h : cnf g = .ok g') : SameLanguage g g'
+      -- composition START, TERM, BIN, DEL, UNIT, unreachable
+    theorem C08_leftrec    (g g' : G) (hv : Valid g) (hh : Hygienic g) (h : elimLeftRec g = .ok g') : SameLanguage g g'
+      -- substitution `Aᵢ → Aⱼ γ ↦ Aᵢ → δ γ` (unfold an occurrence) and the Arden step
+      -- `A → A α | β  ↦  A → β A′, A′ → α A′ | ε` for a fresh `A′`
+    theorem C08_leftfactor (g g' : G) (hv : Valid g) (hh : Hygienic g) (h : leftFactor g = .ok g') : SameLanguage g g'
+      -- fold a fresh non-terminal `A′ → β₁ | … | βₙ` for the common first symbol
+-/
